@@ -405,6 +405,9 @@ class PaneOptions:
 
 def _param_key(ty: t.Any) -> t.Any:
     # typing compares Union[A, B] == Union[B, A]; for conversion the order of the members matters
+    if isinstance(ty, (list, tuple)):
+        # e.g. the parameter list of Callable[[int], str], or a tuple type literal
+        return tuple(map(_param_key, ty))
     args = t.get_args(ty)
     if not len(args):
         return ty
